@@ -25,7 +25,7 @@ ASSUMPTIONS = ["a forged datagram that carries the right token AND the right sou
                "indication was delivered to the endpoint"]
 EXPECTED_PROBES = ["forged_random_token", "forged_wrong_ip", "forged_wrong_port", "late_copy", "rst_for_unmatched_con",
                    "matched", "failed_by_icmp", "failed_by_giveup", "failed_by_rst", "resolution_failure", "pending_at_quiescence",
-                   "dup_response_delivered"]
+                   "dup_response_delivered", "multicast_request_outstanding", "response_before_exchange_end"]
 
 FORGED = b"FORGED"
 
@@ -39,7 +39,8 @@ def gen(r, tier):
         t += r.choice([0.0, 0.0, 0.01, 0.1, 1.0])
         srv = r.randrange(0, 1 + nscripted)  # 0 = real server
         op = {"op": "req", "t": round(t, 4), "srv": srv, "con": r.chance(0.65),
-              "behave": r.weighted([(5, "piggy"), (3, "sep_con"), (2, "sep_non"), (1, "rst"), (1, "silent")]),
+              "behave": r.weighted([(5, "piggy"), (3, "sep_con"), (2, "sep_non"), (1, "rst"), (1, "silent"),
+                                    (1, "early_rst"), (1, "early_ack")]),
               "d": r.choice([0.0, 0.02, 0.099, 0.101, 0.3, 1.5])}
         if r.chance(0.06):
             op["host"] = r.choice(["bad.example", "good.example"])
@@ -55,7 +56,9 @@ def gen(r, tier):
                     "errno": r.choice([111, 113])})
     ops.sort(key=lambda o: (o["t"], o["op"] != "req"))
     return {"nscripted": nscripted, "ops": ops, "net": faults.swarm(r, kinds=("drop", "dup", "delay", "reorder")),
-            "senderr": round(r.uniform(0.01, 0.08), 3) if r.chance(0.08) else 0, "stall": r.chance(0.1)}
+            "senderr": round(r.uniform(0.01, 0.08), 3) if r.chance(0.08) else 0, "stall": r.chance(0.1),
+            # one more concurrent request: to a multicast group nobody answers from (outstanding for the whole run)
+            "mcast": r.chance(0.15)}
 
 
 def corpus():
@@ -107,6 +110,17 @@ class ScriptServer(ScriptedEndpoint):
             if beh in ("piggy", "sep_non", "sep_con"):
                 self.loop.after(d, lambda: self.send(src, msg={"type": rc.NON, "code": rc.CONTENT, "mid": self.next_mid(),
                                                                "token": msg["token"], "options": [], "payload": payload}))
+            return
+        if beh in ("early_rst", "early_ack"):
+            # the response overtakes the acknowledgement: the request is complete while its exchange is still open,
+            # and what then ends the exchange (RST or ACK) must not disturb anything
+            self.seen[key] = None
+            self.sim.probe("response_before_exchange_end")
+            self.loop.after(d, lambda: self.send(src, msg={"type": rc.NON, "code": rc.CONTENT, "mid": self.next_mid(),
+                                                           "token": msg["token"], "options": [], "payload": payload}))
+            self.loop.after(d + 0.2, lambda: self.send(src, msg={
+                "type": rc.RST if beh == "early_rst" else rc.ACK, "code": 0, "mid": msg["mid"], "token": b"",
+                "options": [], "payload": b""}))
             return
         if beh == "silent":
             self.seen[key] = None
@@ -240,6 +254,10 @@ def execute(sim, scn):
         nforged[0] += 1
         sim.net.inject(rc.encode(m), src, me, forged=True, fate=["deliver", 0.005])
 
+    if scn.get("mcast"):
+        sim.probe("multicast_request_outstanding")
+        loop.at(0.0, lambda: tracker.start("mcast", client, Message(code=GET, uri="coap://[ff02::fd]/echo?t=9999&d=0",
+                                                                    transport_tuning=Unreliable()), handle_blockwise=False))
     for i, op in enumerate(scn["ops"]):
         if op["op"] == "req":
             loop.at(op["t"], do_req, i, op)
